@@ -16,7 +16,7 @@ def answer (line : String) : String :=
       match kind with
       | "units" => do let x ← parseUnits a; let y ← parseUnits b; pure ("E" ++ four eqUnits x y ++ " F" ++ four eqUnits x y)
       | "var" => do let x ← parseVar a; let y ← parseVar b; pure ("E" ++ four eqVariable x y ++ " F" ++ four eqVariable x y)
-      | "reset" => do let x ← parseReset a; let y ← parseReset b; pure ("E" ++ four eqReset x y ++ " F" ++ four eqReset x y)
+      | "reset" => do let x ← parseReset [] a; let y ← parseReset [] b; pure ("E" ++ four eqReset x y ++ " F" ++ four eqReset x y)
       | "comp" => do
         let x ← parseComp 64 a; let y ← parseComp 64 b
         pure ("E" ++ four (eqComponent false 64) x y ++ " F" ++ four (eqComponent true 64) x y)
